@@ -83,6 +83,11 @@ def preambleDict : List (List Char) → List (List Char × List (List (List Char
     | some [] => .error .value          -- cannot happen: `group_by_word` returns at least one word
     | some (w :: ws) => preambleDict ls (addEntry w ws d)
 
+/-- preamble keywords (`Symbols.PREAMBLE_*`) -/
+def kwNetqasm : List Char := ['N', 'E', 'T', 'Q', 'A', 'S', 'M']
+def kwAppid : List Char := ['A', 'P', 'P', 'I', 'D']
+def kwDefine : List Char := ['D', 'E', 'F', 'I', 'N', 'E']
+
 def hasDupKey : List (List Char) → Bool
   | [] => false
   | k :: ks => ks.contains k || hasDupKey ks
@@ -109,9 +114,9 @@ def checkDict : List (List Char × List (List (List Char))) → Except FErr Unit
   | [] => .ok ()
   | (k, v) :: rest =>
     let r : Except FErr Unit :=
-      if k = "NETQASM".toList then checkSingle v
-      else if k = "APPID".toList then checkSingle v
-      else if k = "DEFINE".toList then checkDefine v []
+      if k = kwNetqasm then checkSingle v
+      else if k = kwAppid then checkSingle v
+      else if k = kwDefine then checkDefine v []
       else .error .instr
     match r with
     | .error e => .error e
@@ -236,20 +241,20 @@ def parseTextProto (S : Text.Syms) (generic : List String) (text : List Char) : 
     match parsePreamble pre with
     | .error e => .error e
     | .ok d =>
-      let macros := (lookupKey d "DEFINE".toList).filterMap (fun ops => match ops with
+      let macros := (lookupKey d kwDefine).filterMap (fun ops => match ops with
         | [k, v] => some (k, v)
         | _ => none)
       match parseBody S generic (applyMacros body macros) with
       | .error e => .error e
       | .ok cmds =>
         let ver : Except FErr (Option (Int × Int)) :=
-          match lookupKey d "NETQASM".toList with
+          match lookupKey d kwNetqasm with
           | (v :: _) :: _ => (parseVersion v).map some
           | _ => .ok none
         match ver with
         | .error e => .error e
         | .ok version =>
-          match lookupKey d "APPID".toList with
+          match lookupKey d kwAppid with
           | (v :: _) :: _ =>
             match pyInt v with
             | some n => .ok ⟨version, some n, cmds⟩
